@@ -16,6 +16,14 @@ Mirrors, branch for branch:
   (`functools.total_ordering` on the first two, reflected calls for the third);
 * `next_major/next_minor/next_patch`.
 
+The operators are modelled at the level of Python's operator dispatch (`a < b`), not of a direct
+dunder call: for a string that is only `N[.N[.N]]`, `coerce` ends with `Version(version)` instead
+of `cls(version)`, so `SemverVersion("1.2.3").value` is a plain `semantic_version.Version` and not
+an `EnhancedSemanticVersion`; `Enhanced.__lt__(plain)` then answers `NotImplemented` and Python
+takes the reflected method of the plain object.  The results are the same as if both were
+enhanced, because such a value has an empty build tuple (observed, and tied by the
+correspondence run).
+
 Every exception these routines can raise on ASCII text is a `ValueError`; it is modelled by
 `Option.none`.  Not modelled: the 4300-digit limit of `int()`/`%d` in CPython >= 3.11.
 No Mathlib.
